@@ -16,12 +16,13 @@ EXPLANATION = (
     "callee itself is total (every may-raise statement of its body sits inside such a handler); (NEUTRAL) these handlers "
     "append to no canonical stream and only assign constants / documented fallbacks; (CONT) no such handler returns or "
     "re-raises, so the canonical appends and the final TurnResult of the turn stay reachable. Not decided: log equality with "
-    "a fault-free baseline under injected faults, garbage snapshot contents (value-level parsing) - fault enumeration."
+    "a fault-free baseline under injected faults, value-level parsing of garbage snapshot contents beyond (SANIT) the GEL block reaching state only as containers the normaliser built - fault enumeration."
 )
 RULES = {
     "C20.ESC": "exception-escape: catch-all enclosure of each declared site (or total callee) + handler-cannot-raise",
     "C20.NEUTRAL": "handlers of declared sites append to no canonical stream",
     "C20.CONT": "handlers of declared sites neither return nor raise; final turn record reachable from them",
+    "C20.SANIT": "provenance of the GEL block stored into state by the boot loader: only the normaliser's freshly built containers",
 }
 
 CORE = "clematis.engine.orchestrator.core"
@@ -69,7 +70,88 @@ def _call_sites(fn: Func, tails: Sequence[str]) -> List[ast.Call]:
     return [x for x in walk_no_defs(fn.node) if isinstance(x, ast.Call) and call_tail(x) in tails]
 
 
+def rule_sanit(ctx) -> None:
+    """a GEL block read from a snapshot file reaches engine state only through the normaliser: the containers under
+    nodes / edges / meta are built fresh by _sanitize_gel_for_write (never the parsed JSON value itself), the load wrapper
+    returns that result, and load_latest_snapshot stores nothing else under state.graph / state.gel.  Turn code outside the
+    fail-soft enclosures (cache keys, hybrid rerank) calls dict methods on state.graph['edges'] without a type test."""
+    SN = "clematis.engine.snapshot"
+    w = ctx.func(SN + ":_sanitize_gel_for_write")
+    wcfg = ctx.cfg(w)
+    wrd = ctx.rd(w)
+    rets = [n for n in wcfg.nodes if n.kind == "stmt" and isinstance(n.ast, ast.Return) and n.ast.value is not None and n in wcfg.reachable_from_entry()]
+    ctx.floor("C20.SANIT", "returns of the GEL normaliser", len(rets), 1)
+
+    def fresh_container(fn, rd, e: ast.AST, at) -> bool:
+        if isinstance(e, (ast.Dict, ast.DictComp)) :
+            return True
+        if isinstance(e, ast.Call) and dotted(e.func) in ("dict",) and not e.args:
+            return True
+        if isinstance(e, ast.Name):
+            ds = [d for d in rd.reaching(e.id, at) if d.kind != "mutate"]
+            return bool(ds) and all(d.kind == "assign" and d.value is not None and (isinstance(d.value, (ast.Dict, ast.DictComp)) and not (isinstance(d.value, ast.Dict) and any(k is None for k in d.value.keys))) for d in ds)
+        return False
+
+    for n in rets:
+        v = n.ast.value
+        ok = isinstance(v, ast.Dict) and all(k is not None for k in v.keys)
+        bad = None
+        if ok:
+            for k, val in zip(v.keys, v.values):
+                if const_str(k) in ("nodes", "edges", "meta") and not fresh_container(w, wrd, val, n):
+                    ok, bad = False, f"{const_str(k)} = `{src(val)[:40]}`"
+        ctx.check(ok, "C20.SANIT", f"{w.qual}/returns-fresh-containers", w.loc(v), "nodes / edges / meta of the normalised block are dictionaries built by the normaliser",
+                  f"the normaliser returns {bad or src(v)[:50]}, which is not a dictionary it built itself: a garbage snapshot value reaches state unchanged")
+    ld = ctx.func(SN + ":_sanitize_gel_for_load")
+    lcfg = ctx.cfg(ld)
+    lrd = ctx.rd(ld)
+    for n in lcfg.nodes:
+        if n.kind == "stmt" and isinstance(n.ast, ast.Return) and n.ast.value is not None and n in lcfg.reachable_from_entry():
+            v = n.ast.value
+            ds = [d for d in lrd.reaching(v.id, n)] if isinstance(v, ast.Name) else []
+            base = [d for d in ds if d.kind != "mutate"]
+            def from_normaliser(d, depth=0) -> bool:
+                if d.kind != "assign" or d.value is None or depth > 4:
+                    return False
+                if isinstance(d.value, ast.Call) and call_tail(d.value) == "_sanitize_gel_for_write":
+                    return True
+                if isinstance(d.value, ast.Name):
+                    inner = [x for x in lrd.reaching(d.value.id, d.node) if x.kind != "mutate"]
+                    return bool(inner) and all(from_normaliser(x, depth + 1) for x in inner)
+                return False
+
+            ok = bool(base) and all(from_normaliser(d) for d in base)
+            # in-place edits afterwards may only touch the meta entry
+            for d in ds:
+                if d.kind == "mutate" and not (isinstance(d.target, ast.Subscript) and const_str(d.target.slice) == "meta"):
+                    ok = False
+            ctx.check(ok, "C20.SANIT", f"{ld.qual}/returns-normalised-block", ld.loc(v), "the load wrapper returns the normaliser's result (only `meta` is overlaid)",
+                      "the load wrapper can return a block that did not pass through _sanitize_gel_for_write (a tagged / trusted fast path): "
+                      "a non-dict `edges` from a corrupt or foreign snapshot is installed in state and `.items()` on it aborts every later turn")
+    ls = ctx.func(SN + ":load_latest_snapshot")
+    scfg = ctx.cfg(ls)
+    srd = ctx.rd(ls)
+    n_sets = 0
+    for n in sorted(scfg.nodes, key=lambda x: x.id):
+        for c in node_calls(n):
+            if call_tail(c) == "_set_state_field" and len(c.args) == 3 and const_str(c.args[1]) in ("graph", "gel"):
+                n_sets += 1
+                v = c.args[2]
+                ok = False
+                if isinstance(v, ast.Dict):
+                    ok = all(isinstance(x, (ast.Dict, ast.Call)) and (not isinstance(x, ast.Dict) or not x.keys) or (isinstance(x, ast.Call) and dotted(x.func) == "dict") for x in v.values)
+                elif isinstance(v, ast.Name):
+                    base = [d for d in srd.reaching(v.id, n) if d.kind != "mutate"]
+                    ok = bool(base) and all(d.kind == "assign" and (
+                        (isinstance(d.value, ast.Call) and call_tail(d.value) == "_sanitize_gel_for_load") or
+                        (isinstance(d.value, ast.Dict) and all(isinstance(x, ast.Dict) and not x.keys for x in d.value.values))) for d in base)
+                ctx.check(ok, "C20.SANIT", f"{ls.qual}/state-{const_str(c.args[1])}-from-normaliser#{n_sets}", ls.loc(c), "state receives an empty block or the normalised block",
+                          f"`{src(v)[:40]}` stored under state.{const_str(c.args[1])} did not come from _sanitize_gel_for_load")
+    ctx.floor("C20.SANIT", "stores of state.graph / state.gel in the boot loader", n_sets, 4)
+
+
 def run(ctx) -> None:
+    rule_sanit(ctx)
     n_sites = 0
     handlers_seen: Dict[int, Tuple[Func, ast.Try, str]] = {}
     for qual, tails, why in SITES:
